@@ -386,7 +386,7 @@ pub const EXTENDED: [char; 40] = [
 /// Characters without an agreed cell model: zero-width, combining, ambiguous-width, bidirectional, other "line separators"
 /// that are NOT line ends for this crate (only LF is). Sampled; for texts containing them only "returns", line numbers and line
 /// text are judged, never marker columns.
-pub const EXOTIC: [char; 14] = ['\u{301}', '\u{200d}', '\u{fe0f}', '°', '±', '§', '\u{5d0}', '\u{2028}', '\u{2029}', '\u{85}', '\u{feff}', '\u{ad}', '\u{1f1e9}', '\u{e0067}'];
+pub const EXOTIC: [char; 17] = ['\u{80}', '\u{9b}', '\u{9f}', '\u{301}', '\u{200d}', '\u{fe0f}', '°', '±', '§', '\u{5d0}', '\u{2028}', '\u{2029}', '\u{85}', '\u{feff}', '\u{ad}', '\u{1f1e9}', '\u{e0067}'];
 
 /// Swarm-style random short text: per-case weights, CRLF on/off, trailing newline on/off.
 fn random_short(rng: &mut SplitMix, min_len: usize, max_len: usize) -> String {
